@@ -736,6 +736,50 @@ template <class T> static void randomT (unsigned long seed, long n)
 }
 
 //---------------------------------------------------------------------------------------------
+// audit W9: points with a NaN coordinate.  NaN lies outside the LinearOrder model of the theorems (every comparison with NaN is
+// false, so `!(p < min || p > max)` and `p >= min && p <= max` differ).  The set semantics {p | min <= p <= max} with IEEE `<=`
+// contains no such point; what matters for the property ("the Vec2/Vec3 specialisations behave identically to the generic template",
+// "intersects(point) is membership") is that all template copies give the SAME answer, namely `false`.
+template <class T> static void nanPoints ()
+{
+    Tally t;
+    T     nan = std::numeric_limits<T>::quiet_NaN (), h = (T) 0.5;
+    std::string tn = TName<T>::s ();
+    {
+        Interval<T> u ((T) 0, (T) 1);
+        ++t.evals; ++t.nontrivial;
+        if (u.intersects (nan)) fail ("box-intersects-point:nan-coordinate", "Interval<" + tn + ">[0,1].intersects(NaN) = true");
+    }
+    for (int k = 0; k < 2; ++k)
+    {
+        Box<Vec2<T>> u (Vec2<T> (0, 0), Vec2<T> (1, 1));
+        Vec2<T>      p (h, h);
+        p[k] = nan;
+        ++t.evals; ++t.nontrivial;
+        if (u.intersects (p)) fail ("box-intersects-point:nan-coordinate", "Box<Vec2<" + tn + ">> [0,1]^2 .intersects(point with NaN at axis " + std::to_string (k) + ", 0.5 elsewhere) = true");
+    }
+    for (int k = 0; k < 3; ++k)
+    {
+        Box<Vec3<T>> u (Vec3<T> (0, 0, 0), Vec3<T> (1, 1, 1));
+        Vec3<T>      p (h, h, h);
+        p[k] = nan;
+        ++t.evals; ++t.nontrivial;
+        if (u.intersects (p)) fail ("box-intersects-point:nan-coordinate", "Box<Vec3<" + tn + ">> [0,1]^3 .intersects(point with NaN at axis " + std::to_string (k) + ", 0.5 elsewhere) = true");
+    }
+    for (int k = 0; k < 4; ++k)
+    {
+        Box<Vec4<T>> u (Vec4<T> (0, 0, 0, 0), Vec4<T> (1, 1, 1, 1));
+        Vec4<T>      p (h, h, h, h);
+        p[k] = nan;
+        ++t.evals; ++t.nontrivial;
+        if (u.intersects (p))
+            fail ("box-intersects-point:nan-coordinate", "Box<Vec4<" + tn + ">> (the GENERIC template) [0,1]^4 .intersects(point with NaN at axis " + std::to_string (k) +
+                  ", 0.5 elsewhere) = true, while Interval / Box<Vec2> / Box<Vec3> answer false for the same kind of point");
+    }
+    summary (std::string ("nan-points:") + tn, t);
+}
+
+//---------------------------------------------------------------------------------------------
 // transforms
 
 struct Frac // exact fraction with int64 parts
@@ -771,13 +815,37 @@ template <class T> static std::string hexd (T v)
     return buf;
 }
 
-template <class T> struct Xf
+// per-law evaluation counts of the transform mode (audit W7): a law that is never evaluated cannot fail
+static std::map<std::string, long> g_evalCount;
+static void evald (const char* key, long n = 1) { g_evalCount[key] += n; }
+
+// a dyadic double as an exact fraction (false if it does not fit)
+static bool toFrac (double v, Frac& f)
 {
-    typedef Vec3<T>     V;
+    if (v != v || std::fabs (v) > 1e15) return false;
+    int    e;
+    double mant = std::frexp (v, &e); // v = mant * 2^e, |mant| in [0.5,1)
+    long long n = (long long) std::ldexp (mant, 53);
+    int       sh = 53 - e;            // v = n / 2^sh
+    while (sh > 0 && (n & 1) == 0) { n >>= 1; --sh; }
+    if (sh < 0 || sh > 40) return false;
+    f = Frac{n, 1ll << sh};
+    return true;
+}
+
+// S = element type of the box, T = element type of the matrix (all four overloads are `template <class S, class T>`;
+// audit W4: S != T is the common "float boxes, double camera matrix" use and exercises the casts `(S) m[j][i]`)
+template <class S, class T = S> struct Xf
+{
+    typedef Vec3<S>     V;
     typedef Box<V>      B;
     typedef Matrix44<T> M;
-    static const char*  ty () { return sizeof (T) == 4 ? "f" : "d"; }
-    static std::string  tg () { return std::string ("Box<Vec3<") + TName<T>::s () + ">>"; }
+    static const bool   mixed = !std::is_same<S, T>::value;
+    static const char*  ty () { return sizeof (S) == 4 ? "f" : "d"; }
+    static std::string  tg ()
+    {
+        return std::string ("Box<Vec3<") + TName<S>::s () + ">>" + (mixed ? std::string ("xMatrix44<") + TName<T>::s () + ">" : std::string ());
+    }
 
     static std::string boxS (const B& b)
     {
@@ -822,7 +890,7 @@ template <class T> struct Xf
         B b;
         if (kind == 1) b.makeEmpty ();
         else if (kind == 2) b.makeInfinite ();
-        else b = B (V ((T) bk[0] / scale, (T) bk[1] / scale, (T) bk[2] / scale), V ((T) bk[3] / scale, (T) bk[4] / scale, (T) bk[5] / scale));
+        else b = B (V ((S) bk[0] / scale, (S) bk[1] / scale, (S) bk[2] / scale), V ((S) bk[3] / scale, (S) bk[4] / scale, (S) bk[5] / scale));
         M m;
         for (int i = 0; i < 4; ++i) for (int j = 0; j < 4; ++j) m[i][j] = (T) mk[i * 4 + j] / scale;
         bool affine = mk[3] == 0 && mk[7] == 0 && mk[11] == 0 && mk[15] == scale;
@@ -830,7 +898,7 @@ template <class T> struct Xf
         // junk in the out-parameter before the call: a box far away from everything, or the unit cube, or default
         B olds[3] = {B (V (50, 50, 50), V (60, 60, 60)), B (V (0, 0, 0), V (1, 1, 1)), B ()};
         // expected: exact 8-corner bound (fractions over scale^2 for the numerators, w over scale^2)
-        bool   haveExp = false, exactDiv = true, init = false, anyW0 = false;
+        bool   haveExp = false, exactDiv = true, init = false, anyW0 = false, allWpos = true;
         Frac   elo[3], ehi[3];
         if (!inv && kind == 0)
         {
@@ -841,6 +909,7 @@ template <class T> struct Xf
                 for (int j = 0; j < 4; ++j) num[j] = v[0] * mk[0 * 4 + j] + v[1] * mk[1 * 4 + j] + v[2] * mk[2 * 4 + j] + (long long) scale * mk[3 * 4 + j];
                 // coordinate j = num[j] / num[3] (homogeneous divide) for the general operator; affine: w = scale^2 -> num[j]/scale^2
                 long long w = num[3];
+                if (w <= 0) allWpos = false;
                 if (w == 0) { exactDiv = false; anyW0 = true; continue; }
                 // is the floating-point division exact?  w (over scale^2) must be +-2^k
                 long long aw = w < 0 ? -w : w;
@@ -887,16 +956,22 @@ template <class T> struct Xf
             // value-returning transform vs the spec
             if (oi == 0)
             {
+                if (inv) evald ("transform:empty-input-not-empty");
+                if (kind == 2) evald ("transform:infinite-input-not-infinite");
+                if (canAffine && inv) evald ("affineTransform:empty-input-not-empty");
+                if (canAffine && kind == 2) evald ("affineTransform:infinite-input-not-infinite");
                 if (inv && !r0.isEmpty ()) fail ("transform:empty-input-not-empty", ctx + " -> " + boxS (r0));
                 if (kind == 2 && !r0.isInfinite ()) fail ("transform:infinite-input-not-infinite", ctx + " -> " + boxS (r0));
                 if (canAffine && inv && !r2.isEmpty ()) fail ("affineTransform:empty-input-not-empty", ctx);
                 if (canAffine && kind == 2 && !r2.isInfinite ()) fail ("affineTransform:infinite-input-not-infinite", ctx);
                 if (haveS8 && !(r0.min == s8.min && r0.max == s8.max))
                     fail ("transform:projective-not-8-corner-bound", ctx + " value form -> " + boxS (r0) + " eight-corner loop -> " + boxS (s8));
-                if (haveS8) ++t.nontrivial;
+                if (haveS8) { ++t.nontrivial; evald ("transform:projective-not-8-corner-bound"); }
                 if (haveExp && exact)
                 {
                     ++t.nontrivial;
+                    evald (affine ? "transform:affine-not-8-corner-bound" : "transform:projective-not-8-corner-bound");
+                    if (canAffine) evald ("affineTransform:differs-from-transform");
                     for (int j = 0; j < 3; ++j)
                         if (!feq (elo[j], (double) r0.min[j], 1) || !feq (ehi[j], (double) r0.max[j], 1))
                         {
@@ -904,19 +979,39 @@ template <class T> struct Xf
                             break;
                         }
                     if (canAffine && !(r2.min == r0.min && r2.max == r0.max)) fail ("affineTransform:differs-from-transform", ctx + " -> " + boxS (r2) + " vs " + boxS (r0));
-                    // images of lattice points of the box lie inside (affine path)
-                    if (affine)
+                    // images of lattice points of the box lie inside: affine path, and (audit W3) projective path when the
+                    // homogeneous coordinate w is positive at all eight corners (theorem transform_contains_of_pos_w).
+                    // The image is computed EXACTLY here (fractions) and compared with the box the real code returned;
+                    // when w(p) is a power of two the real `p * m` is exact too and `intersects` is asked as well.
+                    if (affine || allWpos)
                         for (int s = 0; s < 4; ++s)
                         {
-                            V p;
+                            V         p;
+                            long long pk[3];
                             for (int i = 0; i < 3; ++i)
                             {
                                 long long lo = bk[i], hi = bk[3 + i];
-                                long long k  = lo + (long long) (g () % (unsigned long long) (hi - lo + 1));
-                                p[i]         = (T) k / scale;
+                                pk[i]        = lo + (long long) (g () % (unsigned long long) (hi - lo + 1));
+                                p[i]         = (S) pk[i] / scale;
                             }
-                            V q = p * m;
-                            if (!r0.intersects (q)) fail ("transform:image-of-box-point-outside", ctx + " p=(" + std::to_string ((double) p.x) + "," + std::to_string ((double) p.y) + "," + std::to_string ((double) p.z) + ")");
+                            long long num[4];
+                            for (int j = 0; j < 4; ++j) num[j] = pk[0] * mk[0 * 4 + j] + pk[1] * mk[1 * 4 + j] + pk[2] * mk[2 * 4 + j] + (long long) scale * mk[3 * 4 + j];
+                            std::string ps = " p=(" + std::to_string ((double) p.x) + "," + std::to_string ((double) p.y) + "," + std::to_string ((double) p.z) + ")";
+                            bool        outside = num[3] <= 0; // w > 0 at the corners implies w > 0 on the box
+                            for (int j = 0; j < 3 && !outside; ++j)
+                            {
+                                Frac img = mkF (num[j], num[3]), lo, hi;
+                                if (!toFrac ((double) r0.min[j], lo) || !toFrac ((double) r0.max[j], hi)) continue;
+                                if (fless (img, lo) || fless (hi, img)) outside = true;
+                            }
+                            evald (affine ? "transform:image-of-box-point-outside" : "transform:image-of-box-point-outside:projective-w>0");
+                            if (outside) fail ("transform:image-of-box-point-outside", ctx + ps + (affine ? "" : " (projective, w > 0 at all corners)"));
+                            long long aw = num[3];
+                            if (aw > 0 && (aw & (aw - 1)) == 0)
+                            {
+                                V q = p * m;
+                                if (!r0.intersects (q)) fail ("transform:image-of-box-point-outside", ctx + ps + " real p*m outside");
+                            }
                         }
                 }
             }
@@ -924,14 +1019,17 @@ template <class T> struct Xf
             if (haveS8)
             {
                 // projective path: each overload separately against the fresh eight-corner loop
+                evald ("transform-outparam:projective-extends-old-result");
                 if (!(r1.min == s8.min && r1.max == s8.max))
                     fail ("transform-outparam:projective-extends-old-result", ctx + " eight-corner loop -> " + boxS (s8) + " out-parameter form -> " + boxS (r1));
             }
-            else if (!sameSet (r1, r0))
+            else evald (inv ? "transform-outparam:empty-input-leaves-result" : kind == 2 ? "transform-outparam:infinite-input-leaves-result" : affine ? "transform-outparam:affine-differs" : "transform-overloads-differ:projective-with-w=0-corner");
+            if (!haveS8 && !sameSet (r1, r0))
             {
                 std::string key = inv ? "transform-outparam:empty-input-leaves-result" : kind == 2 ? "transform-outparam:infinite-input-leaves-result" : affine ? "transform-outparam:affine-differs" : "transform-overloads-differ:projective-with-w=0-corner";
                 fail (key, ctx + " value-form -> " + boxS (r0) + " out-parameter form -> " + boxS (r1));
             }
+            if (canAffine) evald (inv ? "affineTransform-outparam:empty-input" : kind == 2 ? "affineTransform-outparam:infinite-input" : "affineTransform-outparam:differs");
             if (canAffine && !sameSet (r3, r2))
             {
                 std::string key = inv ? "affineTransform-outparam:empty-input" : kind == 2 ? "affineTransform-outparam:infinite-input" : "affineTransform-outparam:differs";
@@ -999,9 +1097,9 @@ template <class T> struct Xf
 
     static void run (unsigned long seed, long n)
     {
-        witnesses ();
+        if (!mixed) witnesses ();
         lastColumnSweep ();
-        std::mt19937_64 g (seed * 2654435761ul + sizeof (T));
+        std::mt19937_64 g (seed * 2654435761ul + sizeof (T) + (mixed ? 16 * sizeof (S) : 0));
         Tally           t;
         auto            I = [&] (int lo, int hi) { return (long long) lo + (long long) (g () % (unsigned long long) (hi - lo + 1)); };
         for (long k = 0; k < n; ++k)
@@ -1031,7 +1129,7 @@ template <class T> struct Xf
         for (long k = 0; k < n; ++k)
         {
             B b;
-            for (int i = 0; i < 3; ++i) { T a = (T) U (g), c = (T) U (g); b.min[i] = a < c ? a : c; b.max[i] = a < c ? c : a; }
+            for (int i = 0; i < 3; ++i) { S a = (S) U (g), c = (S) U (g); b.min[i] = a < c ? a : c; b.max[i] = a < c ? c : a; }
             M m;
             for (int i = 0; i < 4; ++i) for (int j = 0; j < 3; ++j) m[i][j] = (T) (U (g) * (g () % 4 == 0 ? 100 : 1));
             m[0][3] = m[1][3] = m[2][3] = 0; m[3][3] = 1;
@@ -1039,6 +1137,7 @@ template <class T> struct Xf
             transform (b, m, r1);
             affineTransform (b, m, r3);
             ++t2.evals; ++t2.nontrivial;
+            evald ("transform:overloads-differ-bitwise:affine-random"); evald ("transform:affine-residue", 3);
             if (!(r0.min == r2.min && r0.max == r2.max && r0.min == r1.min && r0.max == r1.max && r0.min == r3.min && r0.max == r3.max))
                 fail ("transform:overloads-differ-bitwise:affine-random", tg () + " box=" + boxS (b) + " m=" + matS (m));
             for (int j = 0; j < 3; ++j)
@@ -1054,7 +1153,7 @@ template <class T> struct Xf
                     if (c == 0 || x > hi) hi = x;
                     if (mg > mag) mag = mg;
                 }
-                long double u   = std::numeric_limits<T>::epsilon () / 2;
+                long double u   = std::numeric_limits<S>::epsilon () / 2; // results are rounded in the box's element type
                 long double err = std::max (std::fabs ((long double) r0.min[j] - lo), std::fabs ((long double) r0.max[j] - hi)) / (u * mag);
                 if ((double) err > worst) worst = (double) err;
                 if (err > 8) fail ("transform:affine-residue", tg () + " box=" + boxS (b) + " m=" + matS (m) + " axis " + std::to_string (j) + " err/(u*sum|terms|)=" + std::to_string ((double) err));
@@ -1077,6 +1176,17 @@ int main (int argc, char** argv)
         membersT<short> (th, seed);
         membersT<float> (th, seed);
         membersT<double> (th, seed);
+        {
+            // audit W6, informational (documented limitation, not a law): integer center() is (max + min) / 2 in the element type.
+            // Box<Vec2<short>> adds through Vec2<short>::operator+, which truncates to short: the sum wraps and the "centre" leaves the
+            // box; Interval<short> adds two promoted ints and does not wrap.  The theorems Box*_center_int_mem are over unbounded Int.
+            Box<Vec2<short>> b (Vec2<short> (30000, 30000), Vec2<short> (32000, 32000));
+            Interval<short>  iv (30000, 32000);
+            Vec2<short>      c = b.center ();
+            printf ("WITNESS Box<Vec2<short>> integer center overflow (documented limitation): [30000,32000]^2.center() = (%d,%d) inside=%d ; "
+                    "Interval<short>[30000,32000].center() = %d inside=%d\n",
+                    (int) c.x, (int) c.y, (int) b.intersects (c), (int) iv.center (), (int) iv.intersects (iv.center ()));
+        }
     }
     else if (mode == "random")
     {
@@ -1084,6 +1194,8 @@ int main (int argc, char** argv)
         long          n    = argc > 3 ? atol (argv[3]) : 100000;
         randomT<float> (seed, n);
         randomT<double> (seed, n);
+        nanPoints<float> ();
+        nanPoints<double> ();
     }
     else if (mode == "transform")
     {
@@ -1091,6 +1203,20 @@ int main (int argc, char** argv)
         long          n    = argc > 3 ? atol (argv[3]) : 2000;
         Xf<float>::run (seed, n);
         Xf<double>::run (seed, n);
+        // mixed element types S != T (audit W4): the same generators, expectations and model lines (all values exact in both types)
+        Xf<float, double>::run (seed, n);
+        Xf<double, float>::run (seed, n);
+        {
+            // audit W3, informational: "contains the image of every point" needs w > 0 on the box.  The Lean counterexample
+            // transform_misses_point_when_w_changes_sign replayed on the real code: w = x changes sign on [-1,2] x {0} x {0}.
+            Matrix44<double> m (0, 0, 0, 1, 0, 1, 0, 0, 0, 0, 1, 0, 1, 0, 0, 0);
+            Box<Vec3<double>> b (Vec3<double> (-1, 0, 0), Vec3<double> (2, 0, 0)), r = transform (b, m);
+            Vec3<double>      p (0.25, 0, 0), q = p * m;
+            printf ("WITNESS Box<Vec3<double>> projective w changes sign (documented limitation, not a defect): transform([-1,2]x{0}x{0}, w=x) -> [%g,%g]x[%g,%g]x[%g,%g]; "
+                    "box point (0.25,0,0) -> (%g,%g,%g) inside=%d\n",
+                    r.min.x, r.max.x, r.min.y, r.max.y, r.min.z, r.max.z, q.x, q.y, q.z, (int) r.intersects (q));
+        }
+        for (auto& kv : g_evalCount) printf ("COUNT-EVAL %s %ld\n", kv.first.c_str (), kv.second);
     }
     else
         return 2;
